@@ -231,7 +231,8 @@ func auditScenarios(tier string) []scenario {
 			}
 		}
 	}
-	return out
+	// J. round 7: queued payloads of k x the lowered MAX_FRAME_SIZE (round7.go)
+	return append(out, resplitScenarios(tier)...)
 }
 
 // passProc forwards every call to the next processor of the chain.
